@@ -23,24 +23,32 @@ from vlib import graphs
 from vlib.cases import Case, Sub, evaluate as _evaluate
 from vlib import core
 
-RULE = ('graphs: all digraphs n<=3 x position patterns (distinct / two nodes coincide / all coincide / grid) x directed in '
-        '{None,True,False} with hostile names, structured random graphs n<=10 (explicit zeros, unsorted indices, '
-        'int/bool/float weights) with random option bundles (labels list/array/dict, scores, membership dense/sparse '
-        'with pies, edge labels incl. labels on absent edges, label colours list/dict, node order, name position, '
-        'width/height None/0, scale, adjacency=None, position=None (Spring), filename); bigraphs: all 0/1 '
-        'biadjacency up to 2x3 + random, same option bundles; dendrograms: random valid dendrograms 2..9 leaves x rotate '
-        'x rotate_names x reorder x n_clusters x colours; names drawn from a hostile alphabet (< > & quotes ]]> '
-        'control characters, DEL, non-ASCII, astral, lone surrogates, U+FFFE/FFFF, entity look-alikes, non-str names); '
-        'a case is non-trivial when the drawing has at least one edge path or pie sector or a name with a character '
-        'that needs sanitising; distinct = distinct (entry point, input, options)')
+RULE = ('corpus; hostile sweep (every entry of a hostile alphabet through the five text templates, with filename); '
+        'degenerate / malformed stream (labels, scores, colours, names of wrong length or empty, edge labels out of range, '
+        'empty / short / long membership, falsy canvas, node_order subsets / repeats / out of range, layout of the wrong '
+        'shape, 0 and 1 nodes, invalid and empty dendrograms, n_clusters out of range: "raises iff raises" is compared, '
+        'not the exception class); deterministic option matrix (every display option of the three entry points at '
+        'least once, on a graph with unsorted indices, a stored zero and a negative weight, and on a symmetric graph, '
+        'names as list / object array / str array); near-coincident positions (2^-60 … of the span; run line skipped, '
+        'edge count bounded); all digraphs n<=3 x 4 position patterns x directed in {None,True,False} with hostile '
+        'names; 40/1500 digraphs n=4; 70/700 structured random graphs n<=10 (explicit zeros, unsorted indices, '
+        'int/bool/float and signed weights) with random option bundles; all 0/1 biadjacency matrices up to 2x3 + 50/500 '
+        'random bigraphs (stored zeros, signed); 120/1500 random valid dendrograms 2..9 leaves; a second configuration '
+        '(ASCII default encoding, subprocess). A case is non-trivial when the drawing has at least one edge path or pie '
+        'sector or a name with a character that needs sanitising; distinct = distinct (entry point, input, options)')
 ASSUMPTIONS = ['numbers are abstract tokens: the model is compared with the implementation after every number printed in '
                'a numeric attribute is replaced by #, and score colours rgb(...) by rgb(#)',
                'set(edge_colors) iterates in an unspecified order: marker definitions are compared as a multiset',
-               'np.argsort returns some sorting permutation (edges with equal colour are drawn in an unspecified order)',
-               'Spring().fit_transform, cut_straight and Louvain are external (their outputs are inputs of the model)',
-               'CSR input has no duplicate entries',
-               'exact rationals for positions and sizes: dyadic inputs, so the coincidence test on rescaled positions '
-               'is the same in float64 and in Q',
+               'np.argsort returns some permutation (theorems); for the exact run lines: equal keys carry equal colours, '
+               'so the masked document does not depend on the permutation',
+               'Spring().fit_transform, cut_straight and Louvain are external (their outputs are inputs of the model; '
+               'a case is skipped and counted when Spring raises)',
+               'CSR input has no duplicate entries (the model answers OutOfModel on them; none is generated)',
+               'the coincidence test of svg_edge_directed is taken on float64 images of the positions, the model takes it '
+               'in exact arithmetic: they agree when the rescaled float64 images of distinct positions are distinct; '
+               'the near-coincident stream records where they are not (known finding F-C20-subresolution); Spring '
+               'layouts are random floats (collision probability negligible)',
+               'exception classes are not compared (raises iff raises is)',
                'the XML recogniser accepts a subset of XML 1.0 (no prolog / comments / PI / CDATA, ASCII names); expat '
                'is run on every returned string as a second opinion']
 
